@@ -344,6 +344,9 @@ func runC14(rc *runCtx) *RunResult {
 		rc.inc("spin_yields", int64(s.SpinSwitches))
 		rc.inc(fmt.Sprintf("strategy_%d", s.Strat), 1)
 		rc.inc("lock_acquisitions", int64(s.LockAcq))
+		if s.Foreign > 0 {
+			rc.inc("hook_calls_from_library_goroutines_ignored", s.Foreign)
+		}
 		if s.LockAcq >= 2 {
 			rc.inc("probe_two_builders_same_burst", 1)
 		}
